@@ -335,6 +335,20 @@ func (p *Plugin) WaitActive(rt *Runtime, d time.Duration) bool {
 	return false
 }
 
+// SyncCount returns how often the Synchronize handler ran.
+func (p *Plugin) SyncCount() int {
+	p.mu.Lock()
+	defer p.mu.Unlock()
+	return len(p.Syncs)
+}
+
+// SyncIDs returns the pod and container ids of the i-th Synchronize call.
+func (p *Plugin) SyncIDs(i int) ([]string, []string) {
+	p.mu.Lock()
+	defer p.mu.Unlock()
+	return p.Syncs[i][0], p.Syncs[i][1]
+}
+
 func (p *Plugin) ClosedCount() int {
 	p.mu.Lock()
 	defer p.mu.Unlock()
